@@ -203,7 +203,7 @@ func fieldLoad(v ssa.Value) (base ssa.Value, field *types.Var, ok bool) {
 		if !ok {
 			return nil, nil, false
 		}
-		return fa.X, fieldOf(fa), true
+		return fieldRoot(fa), fieldOf(fa), true
 	case *ssa.Field:
 		return x.X, fieldOfField(x), true
 	}
@@ -289,4 +289,17 @@ func (m *Model) literalField(al *ssa.Alloc, f *types.Var) ssa.Value {
 		return nil
 	}
 	return val
+}
+
+// fieldRoot: the object a field address belongs to; for a leaf of a struct-valued (embedded or
+// named) field it is the object that holds the outer field.
+func fieldRoot(fa *ssa.FieldAddr) ssa.Value {
+	if inner, ok := stripConv(fa.X).(*ssa.FieldAddr); ok {
+		if f := fieldOf(inner); f != nil && sameNamedPkg(f) {
+			if _, isStruct := f.Type().Underlying().(*types.Struct); isStruct {
+				return inner.X
+			}
+		}
+	}
+	return fa.X
 }
